@@ -572,16 +572,15 @@ func (p *Proxy) handle(ctx *Context, conn net.Conn, brw *bufio.ReadWriter) error
 	err = res.Write(brw)
 	if err != nil {
 		log.Errorf("martian: got error while writing response back to client: %v", err)
-		if _, ok := err.(*trafficshape.ErrForceClose); ok {
-			closing = errClose
-		}
+		// A failed write (for example the origin cut the body short after a
+		// complete head) leaves a partial response on the wire: the connection
+		// is out of frame and must not serve another request.
+		closing = errClose
 	}
 	err = brw.Flush()
 	if err != nil {
 		log.Errorf("martian: got error while flushing response back to client: %v", err)
-		if _, ok := err.(*trafficshape.ErrForceClose); ok {
-			closing = errClose
-		}
+		closing = errClose
 	}
 	return closing
 }
